@@ -1,5 +1,7 @@
 (* C07 — zone selection and RCODEs for unsupported queries. *)
-From QV Require Import Base.ListX Model.NameWire Model.Reader Model.RdataLite Model.Server Proofs.ServerP.
+From QV Require Import Model.ZoneTree Model.Query Model.MsgWriter Model.QueryW.
+From QV Require Import Base.ListX Model.NameWire Model.Reader Model.RdataLite Model.Server Proofs.ServerP
+  Spec.NameWireS Spec.NameRepr Spec.ReaderS Model.CatTree Spec.CatTreeS Proofs.CatTreeCatP Model.ServerCat Proofs.ServerCatP Proofs.ServerNumP Proofs.ServerSimP.
 
 (* A request that passes the generic pre-processing is dispatched on its opcode:
    anything but QUERY gets NOTIMP, regardless of the catalog, and carries no data. *)
@@ -59,8 +61,138 @@ Theorem c07_data_only_from_loaded_zone : forall answer verify cfg req w, wf_cfg 
     w = apply_body w0 (answer z q (c_transport cfg) (w_avail w0 - w_cursor w0)).
 Proof. exact data_only_from_loaded_zone. Qed.
 
+(* ---- C07 o C22: the same statements over the REAL catalog structure (the hash-map tree) ---- *)
+
+(* For EVERY catalog reachable from [new()] by a history of inserts and removes (lookups, gets and
+   iterations interleaved), and every name and class: the tree's own lookup
+   (HashMapTreeCatalog::lookup, Model/CatTree.v) does not panic, and the flat lookup the server model
+   dispatches on, run on the flat view of that tree, returns exactly the same entry — same class,
+   same name modulo ASCII case, same kind ([srv_entry], [c07_srv_entry_fields]).  So
+   [c07_query_table], [c07_longest_suffix] and [c07_data_only_from_loaded_zone] hold verbatim with
+   [c_catalog cfg = flat_of_tree c] for the real structure [c]. *)
+Theorem c07_catalog_tree_link : forall (h : list (cat_op entry_kind)) c xs, cat_run cat_new h = Ok (c, xs) ->
+  forall nm cls, exists r, CatTree.cat_lookup c nm cls = Ok r /\
+    Server.cat_lookup (flat_of_tree c) (lower_name nm) cls None = option_map srv_entry r.
+Proof. exact tree_link_history. Qed.
+
+Theorem c07_srv_entry_fields : forall e,
+  Server.e_class (srv_entry e) = CatTree.e_class e /\ Server.e_name (srv_entry e) = lower_name (CatTree.e_name e) /\
+  Server.e_kind (srv_entry e) = CatTree.e_val e.
+Proof. exact srv_entry_fields. Qed.
+
+(* The link is not specific to the tree: for ANY catalog implementation refining C22's flat reference map
+   ([m] stores every entry at its own key, [l] lists exactly its entries) the server model's lookup on the
+   flat view of the listing is the specification's longest-suffix lookup ... *)
+Theorem c07_catalog_refinement_link : forall (m : refmap tentry) (l : list tentry) cls q r,
+  rm_consistent CatTree.e_name CatTree.e_class m -> rm_is_iter CatTree.e_name CatTree.e_class m l ->
+  rm_is_lookup m cls q r ->
+  Server.cat_lookup (map srv_entry l) q cls None = option_map srv_entry r.
+Proof. exact flat_lookup_refmap. Qed.
+
+(* ... in particular for SingleZoneCatalog (src/db/single_zone_catalog.rs) *)
+Theorem c07_single_zone_link : forall (e : tentry) nm cls,
+  Server.cat_lookup [srv_entry e] (lower_name nm) cls None = option_map srv_entry (single_lookup e nm cls).
+Proof. exact single_lookup_flat. Qed.
+
+(* loading a configuration (Catalog::insert of every entry in order; an equal (class, name) replaces)
+   never panics and yields a well-formed tree *)
+Theorem c07_tree_of_entries_ok : forall es, exists c, tree_of_entries es = Ok c /\ wf_cat c.
+Proof. exact tree_of_entries_ok. Qed.
+
+(* the QUERY decision table with the tree's lookup in place of the flat one *)
+Theorem c07_query_table_tree : forall answer cfg (c : tcatalog) w q ls, wf_cat c -> c_catalog cfg = flat_of_tree c ->
+  w_question w = Some q -> name_key (q_name q) = lower_name ls ->
+  exists r, CatTree.cat_lookup c ls (q_class q) = Ok r /\
+    handle_query answer cfg w =
+      if existsb (N.eqb (q_type q)) [QTYPE_IXFR; QTYPE_AXFR; QTYPE_MAILB; QTYPE_MAILA] || (q_class q =? QCLASS_ANY)%N
+      then set_rcode w RC_NOTIMP
+      else match r with
+           | None => set_rcode w RC_REFUSED
+           | Some e =>
+             match CatTree.e_val e with
+             | ELoaded z => apply_body w (answer z q (c_transport cfg) (w_avail w - w_cursor w))
+             | _ => set_rcode w RC_SERVFAIL
+             end
+           end.
+Proof. exact handle_query_tree. Qed.
+
+(* end to end: a request that passes the pre-processing with opcode QUERY, against a server whose
+   catalog is the tree [c]: the question is the spec-level decoding [ls] of the request's question and
+   the response is decided by the tree's lookup of [ls] *)
+Theorem c07_clean_query_tree : forall answer verify cfg (c : tcatalog) req w0, wf_cfg cfg -> wf_bytes req -> wf_cat c ->
+  c_catalog cfg = flat_of_tree c ->
+  prescan verify cfg req = Ok (PClean OPCODE_QUERY w0) ->
+  match w_question w0 with
+  | None => handle_message answer verify cfg req = Ok (Some (set_rcode w0 RC_FORMERR))
+  | Some q =>
+    exists ls r1 r, decodes_question req 12 ls (q_type q) (q_class q) (r_cursor r1) /\ q_name q = name_of ls /\
+      CatTree.cat_lookup c ls (q_class q) = Ok r /\
+      handle_message answer verify cfg req = Ok (Some (
+        if existsb (N.eqb (q_type q)) [QTYPE_IXFR; QTYPE_AXFR; QTYPE_MAILB; QTYPE_MAILA] || (q_class q =? QCLASS_ANY)%N
+        then set_rcode w0 RC_NOTIMP
+        else match r with
+             | None => set_rcode w0 RC_REFUSED
+             | Some e =>
+               match CatTree.e_val e with
+               | ELoaded z => apply_body w0 (answer z q (c_transport cfg) (w_avail w0 - w_cursor w0))
+               | _ => set_rcode w0 RC_SERVFAIL
+               end
+             end))
+  end.
+Proof. exact clean_query_tree. Qed.
+
+(* ---- what is handed to query answering ---------------------------------------------------------------
+   The server model carries an ABSTRACT Writer (cursor / limit / available / ARCOUNT).  For a request that
+   passes the pre-processing as a clean QUERY with its question and without TSIG, the real Writer of C12
+   (Model/MsgWriter.v), driven as Server::handle_message drives it ([QueryW.prepare_w]: Writer::new with the
+   transport's limit, id / QR / opcode / RD, add_question, set_edns, set_limit) with the values the server
+   model computed and a buffer of the configured size, succeeds and has EXACTLY the abstract Writer's cursor,
+   limit, available space and ARCOUNT — so the space [w_avail - w_cursor] the dispatch passes to the zone's
+   answer, and the limit / EDNS size the byte-level composition [respond_w] is run with, are the real ones. *)
+Theorem c07_answering_writer_agrees : forall verify cfg req w0 q buf, wf_cfg cfg -> wf_bytes req ->
+  prescan verify cfg req = Ok (PClean OPCODE_QUERY w0) -> Server.w_tsig w0 = None -> Server.w_question w0 = Some q ->
+  length buf = c_buflen cfg ->
+  exists w, prepare_w buf (match c_transport cfg with Tcp => true | Udp => false end)
+                      (Server.w_id w0) (Server.w_rd w0) (labels_of (Reader.q_name q)) (Reader.q_type q) (Reader.q_class q)
+                      (option_map fst (Server.w_edns w0)) (Server.w_limit w0) = Some w /\
+    MsgWriter.w_cursor w = Server.w_cursor w0 /\ MsgWriter.w_limit w = Server.w_limit w0 /\
+    MsgWriter.w_avail w = Server.w_avail w0 /\ MsgWriter.w_ar w = Server.w_arcount w0.
+Proof. exact prepare_w_agrees. Qed.
+
+(* ... and its numbers: the full pre-scan invariant holds (available + OPT reservation = limit, 512 <= limit
+   <= buffer), the cursor is 12 + the question's size (nothing else has been written), and the limit is the
+   transport's unless the EDNS negotiation over UDP changed it. *)
+Theorem c07_clean_query_numbers : forall verify cfg req o w q, wf_cfg cfg -> wf_bytes req ->
+  prescan verify cfg req = Ok (PClean o w) -> Server.w_tsig w = None -> Server.w_question w = Some q ->
+  (exists seen, srv_inv cfg seen w) /\
+  Server.w_cursor w = 12 + length (n_wire (Reader.q_name q)) + 4 /\ Server.w_buflen w = c_buflen cfg /\
+  length (n_wire (Reader.q_name q)) <= 255 /\
+  let L0 := Nat.min (match c_transport cfg with Tcp => tcp_limit | Udp => udp_limit end) (c_buflen cfg) in
+  (Server.w_edns w = None -> Server.w_limit w = L0) /\ (c_transport cfg = Tcp -> Server.w_limit w = L0).
+Proof. exact clean_query_numbers. Qed.
+
+(* Non-vacuity: a. (Loaded 0), b.a. (NotYetLoaded) and a second insert of B.A. (FailedToLoad, replacing
+   the equal key) in class IN; x.B.a. selects the replaced entry in the tree and in its flat view. *)
+Example c07_tree_example :
+  let es := [CatTree.mkEntry [[97%N]] 1%N (ELoaded 0); CatTree.mkEntry [[98%N]; [97%N]] 1%N ENotYetLoaded;
+             CatTree.mkEntry [[66%N]; [65%N]] 1%N EFailedToLoad] in
+  exists c, tree_of_entries es = Ok c /\ length (flat_of_tree c) = 2 /\
+    CatTree.cat_lookup c [[120%N]; [66%N]; [97%N]] 1%N = Ok (Some (CatTree.mkEntry [[66%N]; [65%N]] 1%N EFailedToLoad)) /\
+    Server.cat_lookup (flat_of_tree c) [[120%N]; [98%N]; [97%N]] 1%N None =
+      Some (Server.mkEntry 1%N [[98%N]; [97%N]] EFailedToLoad).
+Proof. cbv zeta. eexists. split; [vm_compute; reflexivity|]. repeat split. Qed.
+
 Print Assumptions c07_dispatch.
 Print Assumptions c07_query_table.
 Print Assumptions c07_longest_suffix.
 Print Assumptions c07_error_responses_empty.
 Print Assumptions c07_data_only_from_loaded_zone.
+Print Assumptions c07_catalog_tree_link.
+Print Assumptions c07_srv_entry_fields.
+Print Assumptions c07_tree_of_entries_ok.
+Print Assumptions c07_query_table_tree.
+Print Assumptions c07_clean_query_tree.
+Print Assumptions c07_catalog_refinement_link.
+Print Assumptions c07_single_zone_link.
+Print Assumptions c07_answering_writer_agrees.
+Print Assumptions c07_clean_query_numbers.
